@@ -188,6 +188,7 @@ class Replayer:
         self.alias = []              # (key, what) alias violations, in order
         self.flagged = {}            # id(obj) -> site at which it was first seen to be internal
         self.steps = 0
+        self.at = 0
         self.scribbles = 0
         self.nontrivial = False
 
@@ -248,7 +249,7 @@ class Replayer:
             if self.is_internal(o, arrs, conts):
                 self.flagged[id(o)] = site
                 kind = type(o).__name__
-                self.alias.append(("alias:" + site, f"{kind} handed out/in by {site} is reachable from internal state after {now_op}"))
+                self.alias.append(("alias:" + site, f"{kind} handed out/in by {site} is reachable from internal state after {now_op}", self.at))
 
     def recheck_held(self, now_op):
         arrs, conts = self.internals()
@@ -259,7 +260,7 @@ class Replayer:
                 # became internal through a later operation: the operation that took it in is the site
                 s = now_op if now_op in IMPORT_OPS else site
                 self.flagged[id(o)] = s
-                self.alias.append(("alias:" + s, f"{type(o).__name__} from {site} is reachable from internal state after {now_op}"))
+                self.alias.append(("alias:" + s, f"{type(o).__name__} from {site} is reachable from internal state after {now_op}", self.at))
 
     # ---- observation through the public getters
     def observe(self):
@@ -460,6 +461,7 @@ class Replayer:
     def run(self, path):
         prev = None
         for n, e in enumerate(path):
+            self.at = n
             l, want, sh = e["l"], e["v"], e["sh"]
             op = l["op"]
             try:
@@ -527,7 +529,7 @@ class Replayer:
             for x in self.flatten(o, []):
                 if id(x) not in self.flagged and self.is_internal(x, arrs, conts):
                     self.flagged[id(x)] = name
-                    self.alias.append(("alias:" + name, f"{type(x).__name__} returned by {name} is reachable from internal state after {now_op}"))
+                    self.alias.append(("alias:" + name, f"{type(x).__name__} returned by {name} is reachable from internal state after {now_op}", self.at))
 
     def blame(self, free, site, got):
         names = []
@@ -588,7 +590,7 @@ def replay_chunk(paths):
     from tempest.state_manager import StateManager
 
     tmp = tempfile.mkdtemp(prefix="c17_", dir=os.environ.get("VERIF_SCRATCH") or None)
-    out = {"viol": {}, "count": {}, "behaviours": 0, "steps": 0, "scribbles": 0, "nontrivial": 0, "inconclusive": 0}
+    out = {"viol": {}, "count": {}, "behaviours": 0, "steps": 0, "scribbles": 0, "nontrivial": 0, "inconclusive": 0, "explained_by_alias": 0}
 
     def note(key, what, path, upto=None):
         out["count"][key] = out["count"].get(key, 0) + 1
@@ -607,13 +609,19 @@ def replay_chunk(paths):
                 except Inconclusive:
                     out["inconclusive"] += 1
                 except Diverged as dv:
-                    note(dv.key, dv.what, path[: rp.steps + 1])
+                    persistent = [h for h in rp.held if not h[2] and id(h[0]) in rp.flagged]
+                    if dv.key.split(":")[0] in ("conform", "raised", "appendonly", "oneper") and persistent:
+                        # the real object already shares a caller-held object (reported as alias:<site>); a later
+                        # difference from the intended behaviour without a caller overwrite is a consequence of it
+                        out["explained_by_alias"] += 1
+                    else:
+                        note(dv.key, dv.what, path[: rp.at + 1])
                     acc = dv.key.split(":", 1)[1]
                     if dv.key.startswith("stable:") and acc in OBSERVER_ACCESSORS and acc not in muted:
                         muted.add(acc)   # keep going: do not let one aliasing accessor hide the others
                         again = True
-                for key, what in rp.alias:
-                    note(key, what, path[: rp.steps + 1])
+                for key, what, at in rp.alias:
+                    note(key, what, path[: at + 1])
                 if not again:
                     break
             out["behaviours"] += 1
@@ -628,7 +636,7 @@ def replay_chunk(paths):
 def replay_all(paths, procs=8):
     paths = list(paths)
     if not paths:
-        return {"viol": {}, "count": {}, "behaviours": 0, "steps": 0, "scribbles": 0, "nontrivial": 0, "inconclusive": 0}
+        return {"viol": {}, "count": {}, "behaviours": 0, "steps": 0, "scribbles": 0, "nontrivial": 0, "inconclusive": 0, "explained_by_alias": 0}
     nchunk = max(1, min(len(paths), procs * 8))
     chunks = [paths[i::nchunk] for i in range(nchunk)]
     if procs <= 1 or len(paths) < 64:
@@ -636,9 +644,9 @@ def replay_all(paths, procs=8):
     else:
         with mp.get_context("fork").Pool(procs) as pool:
             parts = pool.map(replay_chunk, chunks)
-    tot = {"viol": {}, "count": {}, "behaviours": 0, "steps": 0, "scribbles": 0, "nontrivial": 0, "inconclusive": 0}
+    tot = {"viol": {}, "count": {}, "behaviours": 0, "steps": 0, "scribbles": 0, "nontrivial": 0, "inconclusive": 0, "explained_by_alias": 0}
     for p in parts:
-        for k in ("behaviours", "steps", "scribbles", "nontrivial", "inconclusive"):
+        for k in ("behaviours", "steps", "scribbles", "nontrivial", "inconclusive", "explained_by_alias"):
             tot[k] += p[k]
         for k, n in p["count"].items():
             tot["count"][k] = tot["count"].get(k, 0) + n
@@ -739,6 +747,7 @@ def component_part(ck) -> dict:
         "distinct_nontrivial": tot["nontrivial"],
         "inconclusive_optin_not_honoured": tot["inconclusive"],
         "violating_behaviours_by_key": tot["count"],
+        "divergences_explained_by_reported_alias": tot["explained_by_alias"],
         "rule": "non-trivial = the behaviour contains a spec-level CallerScribble of an object the caller still holds "
                 "(export dict entry, opt-in array, list); in addition every object returned by every accessor is overwritten "
                 "after every step of every behaviour (caller_overwrites counts objects)",
